@@ -235,6 +235,9 @@ func (r *Run) Execute() Outcome {
 		}
 		base.Colls = append(base.Colls, kv.CollNames[ci].ScopeName()+"."+kv.CollNames[ci].CollectionName())
 	}
+	if r.Writer.EndMeta {
+		base.Colls = append(base.Colls, "meta.only") // created before the writer reported the bucket open
+	}
 	if adminLast != nil {
 		base = *adminLast
 	}
